@@ -1,4 +1,5 @@
 import Votca.Lemmas.C13
+import Votca.Gen.Hist
 /-! # C13 — property theorems: histograms conserve weight and never write outside their bins
 
 About the executable model `Votca/Model/C13.lean` (HistogramNew::Process / Normalize, legacy automatic range). -/
@@ -244,5 +245,48 @@ example : binIndex (init 0 4 4 true) (-4) = some 0 := by decide +kernel
 example : (4 : Int) - Int.tmod (-(-4)) 4 = 4 := by decide
 example : ((init 0 4 4 true).step = 1) ∧ 0 < (init 0 4 4 true).n := by decide +kernel
 example : (autoRange [-3, -1, -2] 1000 (-1000)) = (-3, -1) := by decide +kernel
+
+/-! ## the model's formulas are the ones the sources contain now (`Gen/Hist.lean` is regenerated from histogramnew.cc and
+histogram.cc on every run: a changed expression breaks one of these obligations) -/
+
+/-- bin width of `Initialize_` -/
+theorem stepOf_is_source (mn mx : Rat) (n : Nat) (periodic : Bool) :
+    stepOf mn mx n periodic =
+      if n = 1 then Gen.Hist.stepSingle else if periodic then Gen.Hist.stepPeriodic mn mx n else Gen.Hist.stepOpen mn mx n := by
+  unfold stepOf Gen.Hist.stepSingle Gen.Hist.stepPeriodic Gen.Hist.stepOpen
+  split
+  · rfl
+  · split <;> rfl
+
+/-- the bin number of `Process` is the floor of the source's expression -/
+theorem rawIndex_is_source (mn step v : Rat) : rawIndex mn step v = (Gen.Hist.binArg v mn step).floor := by
+  unfold rawIndex Gen.Hist.binArg; rfl
+
+/-- the cast guard of `Process` uses the source's bound -/
+theorem castLimit_is_source : (castLimit : Rat) = Gen.Hist.castBound := by
+  unfold castLimit Gen.Hist.castBound; norm_num
+
+/-- `Normalize` scales by the source's factor -/
+theorem normalize_is_source (h : Hist) :
+    (normalize h).data = h.data.map (· * Gen.Hist.normScale (sumAbs h.data) h.step) := by
+  unfold normalize Gen.Hist.normScale; rfl
+
+/-- the legacy class: bin number and width -/
+theorem legacy_is_source (mn iv v : Rat) (mx : Rat) (n : Nat) :
+    rawIndex mn iv v = (Gen.Hist.legacyBinArg v mn iv).floor ∧ (mx - mn) / ((n : Rat) - 1) = Gen.Hist.legacyInterval mn mx n := by
+  unfold rawIndex Gen.Hist.legacyBinArg Gen.Hist.legacyInterval
+  exact ⟨rfl, rfl⟩
+
+/-- the legacy normalisation makes the integral one: `Σ (p_i · norm) · interval = 1` for a non-zero sum and width -/
+theorem legacyNorm_integral (pdf : List Rat) (iv : Rat) (hs : pdf.sum ≠ 0) (hi : iv ≠ 0) :
+    (pdf.map (· * Gen.Hist.legacyNorm pdf.sum iv)).sum * iv = 1 := by
+  have hsum : ∀ (l : List Rat) (c : Rat), (l.map (· * c)).sum = l.sum * c := by
+    intro l c
+    induction l with
+    | nil => simp
+    | cons x xs ih => simp only [List.map_cons, List.sum_cons, ih]; ring
+  rw [hsum]
+  unfold Gen.Hist.legacyNorm
+  field_simp
 
 end Votca.C13
